@@ -18,6 +18,64 @@ def load_table(name):
         return json.load(fh)
 
 
+class Pool:
+    """Reviewed exceptions, keyed "<fn path> | <detail>" with an exact count per build configuration.
+
+    A site is first matched against the entry of its own function.  Sites left over are matched, after the
+    whole scan, against allowances that stayed unused *with the same detail* (same construct and type): that is
+    what moving a reviewed construct into a helper function, or renaming its function, looks like.  On the
+    unchanged tree every allowance is used up by its own function (tools/check_tables.py asserts it), so a
+    construct can only borrow an allowance if a reviewed one of the same kind disappeared elsewhere; a
+    construct added on top of the reviewed ones always exceeds the total and is reported."""
+
+    def __init__(self, table, config="default", scope=None, every=None):
+        """scope: function paths examined by this scan; every: all function paths of the crate.  Entries of
+        functions that exist but are outside the scan's scope belong to another scan and lend nothing."""
+        if scope is not None:
+            table = {k: v for k, v in table.items()
+                     if k.split(" | ", 1)[0] in scope or k.split(" | ", 1)[0] not in every}
+        self.table = table
+        self.left = {}
+        for k, v in table.items():
+            c = v.get("count", 0)
+            if isinstance(c, dict):
+                c = c.get(config, 0)
+            self.left[k] = c
+        self.pending = []
+
+    def take(self, fnpath, detail):
+        k = "%s | %s" % (fnpath, detail)
+        if self.left.get(k, 0) > 0:
+            self.left[k] -= 1
+            return self.table[k]
+        return None
+
+    def site(self, fnpath, detail, on_ok, on_violation):
+        """on_ok(entry, moved_from or None); on_violation() -- called now or at settle()."""
+        ent = self.take(fnpath, detail)
+        if ent is not None:
+            on_ok(ent, None)
+        else:
+            self.pending.append((fnpath, detail, on_ok, on_violation))
+
+    def settle(self):
+        for fnpath, detail, on_ok, on_violation in self.pending:
+            donor = None
+            for k in sorted(self.left):
+                if self.left[k] > 0 and k.split(" | ", 1)[1] == detail:
+                    donor = k
+                    break
+            if donor is None:
+                on_violation()
+            else:
+                self.left[donor] -= 1
+                on_ok(self.table[donor], donor.split(" | ", 1)[0])
+        self.pending = []
+
+    def unused(self):
+        return {k: n for k, n in self.left.items() if n > 0}
+
+
 class Rule:
     def __init__(self, ctx, rid, text):
         self.ctx = ctx
